@@ -515,3 +515,39 @@ pub fn directed(kind: Kind) -> Vec<(Cfg, Vec<Op>, &'static str)> {
     }
     v
 }
+
+/// W-TinyLFU admission decisions between two keys whose estimates sit at or next to the top of
+/// the 4-bit counter range (15 in the sketch + 1 from the doorkeeper): `na` recorded accesses
+/// of the later victim against `nb` of the later candidate, sample size far above the script
+/// length so no reset interferes.
+pub fn saturation_grid() -> Vec<(Cfg, Vec<Op>)> {
+    use Op::*;
+    let mut v = vec![];
+    for na in 12..=19u32 {
+        for nb in 12..=19u32 {
+            for (pt, pb) in [(1usize, 1usize), (2, 1), (1, 2), (2, 2)] {
+                let mut ops = vec![];
+                for _ in 0..na {
+                    ops.push(Get(8, false));
+                }
+                for _ in 0..nb {
+                    ops.push(Get(9, false));
+                }
+                // fill the protected segment (keys 1..=pt), each promoted by a hit while probationary
+                ops.push(Put(1));
+                for i in 1..=pt as u32 {
+                    ops.push(Put(i + 1));
+                    ops.push(Get(i, false));
+                }
+                // 8 becomes the probationary LRU of a full main cache, 9 the window's evictee
+                for k in [8, 5, 9, 6, 7] {
+                    ops.push(Put(k));
+                }
+                ops.push(Contains(8, false));
+                ops.push(Contains(9, false));
+                v.push((Cfg::wtlfu(1, pt, pb, 4096, HKind::Ident), ops));
+            }
+        }
+    }
+    v
+}
